@@ -32,6 +32,22 @@
        membership, sender as in the proto event>:stripped=<n>.  specification stream: `Spec.inviteV3Guards`.
    handshake.performjoin … (see below)
    handshake.perform_invite, handshake.sendjoin_pseudo: see VDriver/HandshakeInvite.lean
+
+   Round 5:
+     * `senderQ` of sendjoin / invite / sendjoin_pseudo has the value "nil": the user-ID querier answers (nil, nil).
+     * handshake.invite has an optional 11th argument `inputSID` = what the caller puts into input.InvitedSenderID:
+       "same" (the invited user's ID; default) | "empty" | "target" (the event's state key).  `cur` is the membership of the
+       invite's TARGET — the event's state key; every other sender ID of the room is not joined ("leave").
+     * handshake.invitev3 has an optional 12th argument `inputSID`: "same" (the ID GetOrCreateSenderID returns; default) |
+       "empty" | "other".  `cur` is the membership of the ID GetOrCreateSenderID returns; every other ID is not joined.
+     * handshake.performjoin_adopt ver pool auth state joinAuth roomID rclass instate admin
+         a well-formed exchange in which the resident server puts `rclass` into the "event" member of its send_join response
+         (classes: harness/area_handshake.go, hsRemoteJoinClasses); instate = 1: the presented state lists the join we sent.
+         outcome: err:<stage> | ok:join=<the returned event is an m.room.member join of the joiner for the room>:oursig=<it
+         carries a signature of the joining server that VERIFIES>:same=<event ID of the one sent>:sigs=<names>:red=<Redacted()>
+         :n=<auth>/<state>.  The specification stream demands join=1:oursig=1 of everything returned.
+     * handshake.performjoin_bodies mjbody sjbody: PerformJoin on hostile response bodies; outcome `nopanic` (C18).
+     * handshake.performjoin_pseudo: see VDriver/HandshakeInvite.lean
 -/
 import VDriver.Util
 import VDriver.Auth
@@ -83,6 +99,13 @@ def userIDOracle : UserIDOracle := fun id =>
   match parseUserID? id with
   | some (some u) => some u.domain
   | _ => none
+
+/-- the user-ID querier's answer: scripted error / (nil, nil), else what the standard querier makes of the sender -/
+def senderAns (senderQ : String) (std : Option Bytes) : SenderAns :=
+  if senderQ == "err" then .err else if senderQ == "nil" then .nil
+  else match std with
+    | some d => .dom d
+    | none => .err
 
 def parseVerify (s : String) : VerifyAns :=
   if s == "err" then .callErr else if s == "bad" then .bad else .good
@@ -166,6 +189,61 @@ def builtJoinEvent (ver : Bytes) (fmt1 : Bool) (joiner roomID : Bytes) (authIDs 
             (b!"depth", .num b!"20"), (b!"origin_server_ts", .num b!"1"),
             (b!"prev_events", refs [b!"$prev:hs1"]), (b!"auth_events", refs authIDs)] }
 
+/-- the facts PerformJoin reads off the remote's copy of the join event -/
+def remoteJoinOf (e : Event) (sigOK : Bool) : RemoteJoin :=
+  { ev := e, type := e.type, sender := e.sender, membership := membershipOf e, roomID := e.roomID, stateKey := e.stateKey,
+    sigOK := sigOK }
+
+/-- `checkEventsContainCreateEvent` on the (untrusted) auth events of the response -/
+def createFound (A : List Event) : CreateFound :=
+  match A.find? (fun e => e.type == b!"m.room.create" && e.stateKey == some []) with
+  | none => .missing
+  | some ce =>
+    match ce.content with
+    | none => .undecodable
+    | some .null => .version []
+    | some (.obj kvs) =>
+      let d := decString (lookupField kvs b!"room_version")
+      if d.err then .undecodable else .version d.val
+    | some _ => .undecodable
+
+/-- set / replace a top-level member of an event -/
+def setMember (e : Event) (k : Bytes) (v : JVal) : Event :=
+  { e with obj := e.obj.filter (fun kv => kv.1 != k) ++ [(k, v)] }
+
+/-- The look-alike of the resident server's copy of the join event, per class (harness: hsRemoteJoinClasses), made from the
+    look-alike of the event we sent; with it whether VerifyEventSignatures accepts the copy — it does exactly when the copy
+    still carries our signature and its redacted form is that of an event we signed (the echo classes, the redacted form,
+    the replayed earlier join) — and what the harness will measure on the event if PerformJoin returns it:
+    (same event ID as the one sent, signature names, Redacted()). -/
+def remoteClass (built : Event) (cls : String) (instate : Bool) (admin : Bytes) : Option (RemoteJoin × String) :=
+  let member (content : List (Bytes × JVal)) : Event := setMember built b!"content" (.obj content)
+  let join (dn : String) : List (Bytes × JVal) := [(b!"displayname", .str (strBytes dn)), (b!"membership", .str b!"join")]
+  if cls == "none" || cls == "x" then none
+  else if cls == "echo" then some (remoteJoinOf built true, "same=1:sigs=hs5:red=0")
+  else if cls == "echo-sig" || cls == "echo-unsigned" then some (remoteJoinOf built true, "same=1:sigs=hs1,hs5:red=0")
+  else if cls == "echo-nosig" then some (remoteJoinOf built false, "same=1:sigs=hs1:red=0")
+  else if cls == "redacted" then some (remoteJoinOf (member [(b!"membership", .str b!"join")]) true, "same=1:sigs=hs1,hs5:red=1")
+  else if cls == "replay" then
+    some (remoteJoinOf { member (join "earlier") with eventID := b!"$replayed" } true, "same=0:sigs=hs5:red=0")
+  else if cls == "custom" then
+    let e := setMember (member [(b!"membership", .str b!"join")]) b!"type" (.str b!"x.custom")
+    let e := if instate then e else e
+    some (remoteJoinOf { e with eventID := b!"$custom" } false, "same=0:sigs=hs1:red=0")
+  else if cls == "forged-content" then
+    some (remoteJoinOf { member (join "chosen by the resident server") with eventID := b!"$forged" } false, "same=0:sigs=hs1:red=0")
+  else if cls == "forged-stale" then
+    some (remoteJoinOf { member (join "chosen by the resident server") with eventID := b!"$forged" } false, "same=0:sigs=hs1,hs5:red=0")
+  else if cls == "forged-auth" then
+    some (remoteJoinOf { setMember built b!"auth_events" (.arr []) with eventID := b!"$forged" } false, "same=0:sigs=hs1:red=0")
+  else if cls == "other-sender" then
+    -- validly signed by the admin's server — but not sent by the joiner
+    some (remoteJoinOf { setMember (member [(b!"membership", .str b!"join")]) b!"sender" (.str admin) with eventID := b!"$other" } true,
+          "same=0:sigs=hs1:red=0")
+  else if cls == "leave" then
+    some (remoteJoinOf { member [(b!"membership", .str b!"leave")] with eventID := b!"$leave" } false, "same=0:sigs=hs1:red=0")
+  else none
+
 def showSigned (aj : Option Bool) (s : Signed) : String :=
   "ok" ++ (match aj with | some b => ":aj=" ++ (if b then "1" else "0") | none => "") ++ ":sig=1:unmod=1:signer=" ++ bytesStr s.signer
 
@@ -206,7 +284,7 @@ def handle (op : String) (args : Array String) : Option String :=
       membership := membershipOf e, contentDecodes := dec, authorisedVia := via,
       roomID := unhexD roomID, reqEventID := unhexD reqEventID, requestOrigin := strBytes origin,
       localServer := strBytes localS, keyID := b!"ed25519:k1",
-      senderDomain := if senderQ == "err" then none else userIDOracle e.sender,
+      senderDomain := senderAns senderQ (userIDOracle e.sender),
       verify := parseVerify verify, curMembership := parseCur cur, userID := userIDOracle }
     let m := match handleSendJoin i with
       | .ok o => showSigned (some o.alreadyJoined) o.sig
@@ -273,7 +351,9 @@ def handle (op : String) (args : Array String) : Option String :=
       | .ok _ => "ok"
       | .error er => showHErr er
     some (withSpec m (Spec.makeLeaveGuards i))
-  | "invite", [ver, ev, roomID, invitedUser, senderQ, verify, known, stripped, stateq, cur] =>
+  | "invite", ver :: ev :: roomID :: invitedUser :: senderQ :: verify :: known :: stripped :: stateq :: cur :: optSID =>
+    let inputSID := optSID.headD "same"
+    if optSID.length > 1 then none else
     let v := strBytes ver
     if v == b!"org.matrix.msc4014" then some "skip:pseudo-id version" else
     -- the event was built for version `evver` = ver when known, else "10"
@@ -281,27 +361,39 @@ def handle (op : String) (args : Array String) : Option String :=
     let e : Event := (parseEvArg ever ev).getD default
     let i : InviteIn := {
       versionKnown := knownVersion v, eventRoomID := e.roomID, roomID := unhexD roomID,
-      senderDomain := if senderQ == "err" then none else userIDOracle e.sender,
+      senderDomain := senderAns senderQ (userIDOracle e.sender),
       verify := parseVerify verify,
       invitedUserDomain := (userIDOracle (strBytes invitedUser)).getD [], keyID := b!"ed25519:k1",
+      invitedUserID := strBytes invitedUser,
+      invitedSenderID := if inputSID == "empty" then [] else if inputSID == "target" then e.stateKey.getD (strBytes invitedUser)
+                         else strBytes invitedUser,
       knownRoom := if known == "err" then .err else .ans (known == "1"),
       strippedGiven := stripped.toNat!,
       stateQuery := if stateq == "err" then .err else .ans stateq.toNat!,
-      curMembership := parseCur cur,
+      -- the scripted membership is the TARGET's (the event's state key); everybody else is not joined
+      membershipOf := fun id => if cur == "err" then none
+                                else if id == e.stateKey.getD (strBytes invitedUser) then parseCur cur else some b!"leave",
       eventType := e.type, membership := membershipOf e, stateKey := e.stateKey }
     let m := match handleInvite i with
       | .ok o => showSigned none o.sig ++ ":stripped=" ++ toString o.strippedLen
       | .error er => showHErr er
     some (withSpec m (Spec.inviteGuards i))
-  | "invitev3", [ver, roomID, protoRoom, ptype, membership, sender, big, known, stripped, stateq, cur] =>
+  | "invitev3", ver :: roomID :: protoRoom :: ptype :: membership :: sender :: big :: known :: stripped :: stateq :: cur :: optSID =>
+    let inputSID := optSID.headD "same"
+    if optSID.length > 1 then none else
     let v := strBytes ver
+    let created : Bytes := b!"invitee-room-key"
     let common : InviteIn := {
       versionKnown := knownVersion v, eventRoomID := unhexD protoRoom, roomID := unhexD roomID,
-      senderDomain := none, verify := .good, invitedUserDomain := b!"hs1", keyID := b!"ed25519:k1",
+      senderDomain := .err, verify := .good, invitedUserDomain := b!"hs1", keyID := b!"ed25519:k1",
+      invitedUserID := b!"@alice:hs1",
+      -- input.InvitedSenderID: the ID GetOrCreateSenderID will return, nothing, or somebody else's
+      invitedSenderID := if inputSID == "empty" then [] else if inputSID == "other" then b!"somebody-else-room-key" else created,
       knownRoom := if known == "err" then .err else .ans (known == "1"),
       strippedGiven := stripped.toNat!,
       stateQuery := if stateq == "err" then .err else .ans stateq.toNat!,
-      curMembership := parseCur cur,
+      -- the scripted membership is that of the ID GetOrCreateSenderID returns; everybody else is not joined
+      membershipOf := fun id => if cur == "err" then none else if id == created then parseCur cur else some b!"leave",
       eventType := [], membership := none, stateKey := none }
     let i : InviteV3In := {
       common := common, protoRoomID := unhexD protoRoom,
@@ -316,7 +408,7 @@ def handle (op : String) (args : Array String) : Option String :=
         else if membership == "~variantafter" then some b!"leave"
         else if membership == "~variantbefore" then some b!"invite"
         else some (strBytes membership),
-      invitedSenderID := if sender == "err" then none else some b!"invitee-room-key",
+      invitedSenderID := if sender == "err" then none else some created,
       -- Build succeeds exactly for the pseudo-ID version (elsewhere the sender, a bare key, fails the
       -- user-ID field check) and for events within the size limit
       buildOK := v == b!"org.matrix.msc4014" && big == "0" }
@@ -343,26 +435,18 @@ def handle (op : String) (args : Array String) : Option String :=
       let rid := unhexD roomID
       let joiner := b!"@newcomer:hs5"
       let built : Event := builtJoinEvent v fmt1 joiner rid ((env.evs authIdx).map (·.eventID))
-      let remoteEv : Option Event :=
+      -- the remote's copy, when it parses cleanly; the joiner's server validly signed it iff the signature oracle says so
+      let remoteEv : Option RemoteJoin :=
         match (FedcheckOps.parseEntries env remote) with
-        | [.ok e] => if wellFormedJoin (membershipOf e) e.roomID rid e.stateKey joiner then some e else none
+        | [.ok e] => some (remoteJoinOf e (O.sigOk e))
         | _ => none
-      let create : CreateFound :=
-        match (FedCheck.untrusted A).find? (fun e => e.type == b!"m.room.create" && e.stateKey == some []) with
-        | none => .missing
-        | some ce =>
-          match ce.content with
-          | none => .undecodable
-          | some .null => .version []
-          | some (.obj kvs) =>
-            let d := decString (lookupField kvs b!"room_version")
-            if d.err then .undecodable else .version d.val
-          | some _ => .undecodable
+      let create : CreateFound := createFound (FedCheck.untrusted A)
       let i : PerformJoinIn Auth.Provider := {
         makeJoinOK := mjmode != "err", versionKnown := knownVersion resolved, buildOK := true, sendJoinOK := sjmode != "err",
-        built := built, remoteEvent := remoteEv, create := create, knownVersion := knownVersion,
+        built := built, roomID := rid, senderID := joiner, pseudoIDs := false, remote := remoteEv,
+        create := create, knownVersion := knownVersion,
         O := O, prov := p, fuel := FedcheckOps.caFuel, auth := A, state := S }
-      let used := if remoteEv.isSome then "remote" else "built"
+      let used := if (remoteEv.map (adoptsRemote i)).getD false then "remote" else "built"
       let m := match performJoin i with
         | .ok (some o) => "ok:" ++ used ++ ":" ++ env.showEvs o.auth ++ "|" ++ env.showEvs o.state
         | .ok none => "diverge"
@@ -380,6 +464,58 @@ def handle (op : String) (args : Array String) : Option String :=
       let guards := checkCreate knownVersion create &&
         (FedCheck.Spec.sendJoin O p (FedCheck.untrusted A) (FedCheck.untrusted S) ev).isSome
       some (withSpec m guards)
+  | "performjoin_adopt", [ver, pool, auth, state, joinAuth, roomID, rclass, instate, admin] =>
+    let v := strBytes ver
+    match parseEvArgs v (FedcheckOps.splitList pool ",") with
+    | none => some "bad-op"
+    | some es =>
+      let env : FedcheckOps.Env := { pool := es.toArray }
+      let fmt1 := ((versionRow? v).map (·.eventFormat)).getD 2 == 1
+      let O := FedCheck.authOracles []
+      let rid := unhexD roomID
+      let joiner := b!"@newcomer:hs5"
+      let built : Event := builtJoinEvent v fmt1 joiner rid ((env.evs (FedcheckOps.natList joinAuth)).map (·.eventID))
+      let A := FedcheckOps.parseEntries env auth
+      -- instate: the state of the response lists the join event that was sent
+      let S := FedcheckOps.parseEntries env state ++ (if instate == "1" then [.ok built] else [])
+      let rc := remoteClass built rclass (instate == "1") (strBytes admin)
+      let i : PerformJoinIn Auth.Provider := {
+        makeJoinOK := true, versionKnown := knownVersion v, buildOK := true, sendJoinOK := true,
+        built := built, roomID := rid, senderID := joiner, pseudoIDs := false, remote := rc.map (·.1),
+        create := createFound (FedCheck.untrusted A), knownVersion := knownVersion,
+        O := O, prov := none, fuel := FedcheckOps.caFuel, auth := A, state := S }
+      let adopted := (i.remote.map (adoptsRemote i)).getD false
+      let m := match performJoin i with
+        | .ok (some o) =>
+          -- what the harness measures on the returned event: ours (a join, our signature, the ID sent, signed by hs5 only)
+          -- or the adopted copy
+          let tail := if adopted then (rc.map (·.2)).getD "?" else "same=1:sigs=hs5:red=0"
+          let joinBit := if adopted then
+              (match i.remote with
+               | some r => if r.type == b!"m.room.member" && r.membership == some b!"join" && r.sender == joiner
+                              && r.stateKey == some joiner && r.roomID == rid then "1" else "0"
+               | none => "1")
+            else "1"
+          let sigBit := if adopted then (match i.remote with | some r => if r.sigOK then "1" else "0" | none => "1") else "1"
+          "ok:join=" ++ joinBit ++ ":oursig=" ++ sigBit ++ ":" ++ tail ++ ":n=" ++ toString o.auth.length ++ "/" ++ toString o.state.length
+        | .ok none => "diverge"
+        | .error .makeJoinFailed => "err:make_join"
+        | .error .unknownVersion => "err:version"
+        | .error .buildFailed => "err:build"
+        | .error .sendJoinFailed => "err:send_join"
+        | .error .noCreate => "err:no-create"
+        | .error .checkFailed => "err:check"
+      -- specification stream (from the property text): whatever PerformJoin returns is a join of the joiner that carries a
+      -- valid signature of the joining server — `join=1:oursig=1` — and the state passed the federation-response checks
+      let ev := joinEventUsed i
+      let guards := checkCreate knownVersion i.create &&
+        (FedCheck.Spec.sendJoin O none (FedCheck.untrusted A) (FedCheck.untrusted S) ev).isSome
+      if m.startsWith "ok" && !m.startsWith "ok:join=1:oursig=1:" then some (m ++ "\terr:must-not-return-this-event")
+      else some (withSpec m guards)
+  | "performjoin_bodies", [_mj, _sj] =>
+    -- C18: no make_join / send_join body makes PerformJoin panic (the model has no panic site left on this path: the nil-map
+    -- write after `json.Unmarshal(null, &input.Content)` went with the round-5 repair)
+    some "nopanic\tnopanic"
   | "sendjoin_pseudo", [ver, cls, ev, evType, roomID, reqEventID, origin, localS, senderQ, verify, store, selfok, cur] =>
     -- HandleSendJoin for org.matrix.msc4014 (encoding: VDriver/HandshakeInvite.lean)
     let v := strBytes ver
@@ -392,7 +528,8 @@ def handle (op : String) (args : Array String) : Option String :=
       membership := membershipOf e, contentDecodes := dec, authorisedVia := via,
       roomID := unhexD roomID, reqEventID := unhexD reqEventID, requestOrigin := strBytes origin,
       localServer := strBytes localS, keyID := b!"ed25519:k1",
-      senderDomain := if senderQ.startsWith "d:" then some (strBytes (senderQ.drop 2).toString) else none,
+      senderDomain := if senderQ.startsWith "d:" then .dom (strBytes (senderQ.drop 2).toString)
+                      else if senderQ == "nil" then .nil else .err,
       verify := .good, curMembership := parseCur cur, userID := userIDOracle }
     -- getMXIDMapping + validateMXIDMappingSignatures, the caller's verifier answering `verify` for every listed server
     let mapping : MappingAns :=
